@@ -11,6 +11,61 @@ import PyOak.Props.LegacyConstruct
 namespace PyOak.Legacy
 open LState
 
+/-! ### restoring parent slots -/
+
+/-- two records that differ at most in the parent slots and agree there are equal -/
+theorem eq_of_sameButParent {a b : LObj} (h : SameButParent a b) (h1 : a.pid = b.pid) (h2 : a.pfield = b.pfield)
+    (h3 : a.pindex = b.pindex) : a = b := by
+  cases a; cases b
+  obtain ⟨c1, c2, c3, c4, c5, c6, c7, c8, c9⟩ := h
+  simp only at c1 c2 c3 c4 c5 c6 c7 c8 c9 h1 h2 h3
+  subst c1 c2 c3 c4 c5 c6 c7 c8 c9 h1 h2 h3
+  rfl
+
+theorem sameButParent_clearP (o : LObj) : SameButParent (clearP o) o := ⟨rfl, rfl, rfl, rfl, rfl, rfl, rfl, rfl, rfl⟩
+
+theorem sameButParent_setSlots (o : LObj) (a : Option Str) (b : Option Str) (c : Option Nat) :
+    SameButParent ({ o with pid := a, pfield := b, pindex := c } : LObj) o := ⟨rfl, rfl, rfl, rfl, rfl, rfl, rfl, rfl, rfl⟩
+
+theorem SameButParent.symm {a b : LObj} (h : SameButParent a b) : SameButParent b a :=
+  ⟨h.cls.symm, h.mro.symm, h.fqn.symm, h.props.symm, h.id.symm, h.origId.symm, h.collWith.symm, h.cid.symm,
+   h.fields.symm⟩
+
+/-- `reparent` gives the listed children exactly the parent slots of the target records `o` -/
+theorem reparent_restore (u : Nat) (o : Nat → LObj) : ∀ (l : List (Nat × Str × Option Nat)) (t : LState),
+    (∀ x, SameButParent (t.obj x) (o x)) →
+    (∀ e ∈ l, (o e.1).pid = some (t.idOf u) ∧ (o e.1).pfield = some e.2.1 ∧ (o e.1).pindex = e.2.2) →
+    ∀ x, x ∈ l.map (·.1) → (reparent u t l).obj x = o x := by
+  intro l
+  induction l with
+  | nil => intro t _ _ x hx; cases hx
+  | cons a r ih =>
+    intro t hsame hl x hx
+    obtain ⟨c, f, i⟩ := a
+    simp only [reparent]
+    have hsame' : ∀ y, SameButParent ((t.setParent c u f i).obj y) (o y) := by
+      intro y; rw [setParent_obj]; split
+      · next h =>
+        subst h
+        have h0 : SameButParent ({ t.obj y with pid := some (t.idOf u), pfield := some f, pindex := i } : LObj) (t.obj y) :=
+          ⟨rfl, rfl, rfl, rfl, rfl, rfl, rfl, rfl, rfl⟩
+        exact SameButParent.trans h0 (hsame y)
+      · exact hsame y
+    by_cases hxr : x ∈ r.map (·.1)
+    · exact ih _ hsame' (fun e he => by rw [setParent_idOf]; exact hl e (List.mem_cons_of_mem _ he)) x hxr
+    · have hxc : x = c := by
+        simp only [List.map_cons, List.mem_cons] at hx
+        rcases hx with h | h
+        · exact h
+        · exact absurd h hxr
+      subst hxc
+      rw [reparent_obj_not_mem u r _ x hxr]
+      obtain ⟨p1, p2, p3⟩ := hl (x, f, i) (List.mem_cons_self ..)
+      apply eq_of_sameButParent (hsame' x)
+      · rw [setParent_obj]; simp [p1]
+      · rw [setParent_obj]; simp [p2]
+      · rw [setParent_obj]; simp [p3]
+
 /-- the position `e` of `p` is exempt -/
 def Hole (p : Nat) (e : Nat × Str × Option Nat) : Nat → (Nat × Str × Option Nat) → Prop :=
   fun q e' => q = p ∧ e' = e
